@@ -43,9 +43,15 @@ RULE = ('random histories of 3-10 operations over one random tree (depth<=5, fan
         'in sequence); Router without routes (request attributes), '
         'Router with 7 declared routes (*traverse, {traverse}/*subpath, traverse= predicate, {subpath}: match dictionaries '
         'from real route matching). Half of the histories build the tree from odd-but-legitimate resource objects (falsy, '
-        '__len__ 0, equal to everything, equal to nothing, unhashable, an always-empty dict subclass with __missing__; one kind '
+        '__len__ 0, equal to everything, equal to nothing, unhashable, an always-empty dict subclass with __missing__, '
+        '__getitem__ bound per instance, a proxy forwarding __getitem__ through __getattr__, a RE-ENTRANT container whose '
+        '__getitem__ runs other traversals first -- then the ContextFound subscriber calls back in too; one kind '
         'for the whole tree or mixed), a fifth pass every str argument / match-dictionary value as an instance of a str '
-        'subclass (and tuple paths as lists). thorough adds the exhaustive small-scope sweep (coverage.exhaustive_subruns). non-trivial = the history has a traversal '
+        'subclass (and tuple paths as lists). Names include near misses of the special segments (three and more dots, '
+        "'.a', 'a.', '@', '@@@', look-alike code points). `rmd` operations compare the match dictionary the REAL routes mapper "
+        'produces (9 routes: *stararg remainders, the traverse= option incl. a literal piece and swapped captures, a captured '
+        '{traverse} next to a traverse= option) with the model (split_path_info of the decoded pieces); `tpi` / `tp` operations '
+        'are judged by the normalisation clause. thorough adds the exhaustive small-scope sweep (coverage.exhaustive_subruns). non-trivial = the history has a traversal '
         'that consumed at least one segment AND one that stopped early (missing/leaf/@@) or ran under a virtual root; '
         'distinct by full case')
 ASSUMPTIONS = [
@@ -78,8 +84,11 @@ TRUSTED = [
     'BaseRequest.path_info decoding -- validated by the correspondence run, not verified',
     'Router.handle_request, traversal part (attrs[\'root\'] = root; tdict = traverser(request); attrs.update(tdict)): '
     'modelled (Model.router_traversal), the statement slice is shape-pinned; the rest of handle_request is not modelled',
-    'route matching (urldispatch + the traverse= pseudo predicate) is an ORACLE for the `route` operations: the match '
-    'dictionary handed to the model is the one the real routes mapper returns (C01 verifies the matcher)',
+    'route matching is an ORACLE for the `route` operations (the match dictionary handed to the model is the one the real '
+    'routes mapper returns; C01 verifies the matcher), but its traverse / subpath entries are no longer taken on trust: the '
+    '`rmd` operations recompute them in the model from the {name} captures and the decoded remainder (harness arithmetic: '
+    'remainder = decoded PATH_INFO after the literal prefix and the captures) and pyramid.predicates.TraversePredicate is '
+    'shape-pinned',
 ]
 TECHNIQUE = ('Coq proof (induction over the segment list / the walk) about a Gallina program whose control flow is translated '
              'from the Python source on every run (fail-closed ast translator, leaves through a small primitive table), proved '
@@ -95,7 +104,10 @@ LEVEL_TEXT = ('Machine-checked theorems for trees, paths and virtual roots of an
               "(absent / empty PATH_INFO, absent / '' / () traverse, absent subpath) like their defaults, the only exceptions "
               'are the decoders\' (URLDecodeError exactly for an undecodable PATH_INFO without a route match), find_root '
               'returns the root of the tree for every resource of it, traverse() resolves an absolute path from that root '
-              'whichever resource is passed and a relative path from the resource passed, Router.handle_request writes exactly the dictionary onto the request, and memoisation '
+              'whichever resource is passed and a relative path from the resource passed, split_path_info drops ONLY the '
+              "segments '', '.', '..' (every list of other segments survives unchanged), the public normalisers meet the "
+              'normalisation clause whenever the text decodes, a request whose item lookups run nested traversals answers like '
+              'the cache-free traverser and leaves every later history unaffected, Router.handle_request writes exactly the dictionary onto the request, and memoisation '
               '(split_path_info, traversal_path_info, _join_path_tuple LRUs and the (segment, safe) dictionary; any valid '
               'cache state, any history of traversals, Router requests, traverse()/find_resource() calls, path splits and '
               'segment quotings) never changes an answer, nor does reusing one traverser object for a history of requests '
@@ -119,6 +131,10 @@ UNORM = ['cafe\u0301', '\u1100\u1161', '\u212b', '\uf900', 'q\u0307\u0323', '\uf
          '\u0130', '\u03c2\u03c3', 'a\u200db', '\u202eab', '\u00c5', 'e\u0301\u0301', '\x7f', 'a\u00a0b']
 NAMES = ['a', 'b', 'c', 'x', 'ab', 'A', 'é', '日本', 'a b', '%41', 'a%2Fb', '+', 'a:b', '\U0001f600', '~u'] + UNORM[:9]
 WEIRD = ['..', '.', '@@v', '@@', '@x', '', 'a/b', '%', '%zz', 'http:', 'x?y', 'a#b', '\ud800', ' 1', '-0', '0', 'None']
+# near misses of the segments the normaliser / the walk treat specially ('', '.', '..', '@@name'): more dots, dots with
+# other characters, one '@', '@@' inside, look-alike code points -- all of them ORDINARY names
+NEARMISS = ['...', '....', '.....', '.a', 'a.', '..a', '. ', ' .', '.\u200b', '\u2024', '\uff0e\uff0e', '@', '@ @', 'a@@v', '@\u200b@v',
+            '\uff20\uff20v', '@@@', ' ', '\u2215', 'a\\b']
 SAFES = ['', '/', '%', "~!$&'()*+,;=:@", "~!$&'()*+,;=:@/", ':@', 'ab']
 
 
@@ -131,7 +147,8 @@ def gen_tree(rng, depth):
     out = []
     for _ in range(n):
         r = rng.random()
-        nm = rng.choice(WEIRD) if r < 0.12 else rng.choice(UNORM) if r < 0.22 else rng.choice(NAMES)
+        nm = rng.choice(WEIRD) if r < 0.10 else rng.choice(NEARMISS) if r < 0.16 else rng.choice(UNORM) if r < 0.24 \
+            else rng.choice(NAMES)
         out.append([nm, gen_tree(rng, depth - 1)])
         if rng.random() < 0.06:
             # a sibling whose name is canonically / compatibly / case-wise "the same" text, but other code points
@@ -188,8 +205,10 @@ def gen_segments(rng, tree, start=None):
             segs.append(rng.choice(['', '.']))
         elif r < 0.90:
             segs.append('@@' + rng.choice(['', 'v', 'view'] + ([x[0] for x in t] if t else [])))
-        else:
+        elif r < 0.95:
             segs.append(rng.choice(WEIRD))
+        else:
+            segs.append(rng.choice(NEARMISS))
     return segs
 
 
@@ -221,7 +240,7 @@ def gen_vroot(rng, tree):
             segs.append(nm)
             t = c
         else:
-            segs.append(rng.choice(NAMES + ['..', '.', '@@v']))
+            segs.append(rng.choice(NAMES + ['..', '.', '@@v', '...', '.a', '@']))
             t = None
     v = '/' + '/'.join(segs)
     if rng.random() < 0.25:
@@ -309,13 +328,72 @@ def gen_api(rng, tree, kind):
 
 ROUTES = [('r_star', '/r/*traverse', None), ('r_sub', '/s/{traverse}/*subpath', None),
           ('r_pred', '/t/{a}/{b}', '/{a}/{b}'), ('r_pred_sub', '/u/{a}/*subpath', '/{a}'),
-          ('r_plain', '/v/{x}', None), ('r_strsub', '/w/{subpath}', None), ('r_both', '/x/{subpath}/*traverse', None)]
+          ('r_plain', '/v/{x}', None), ('r_strsub', '/w/{subpath}', None), ('r_both', '/x/{subpath}/*traverse', None),
+          ('r_cap', '/y/{traverse}/{b}', '/{b}'), ('r_pred3', '/z/{a}/{b}/*subpath', '/{b}/x/{a}')]
+
+# what the match dictionary of each route must hold under 'traverse' / 'subpath' (operation `rmd`), as a recipe over
+# the OTHER captures of the same match (c = match dictionary, rem = decoded PATH_INFO after the literal prefix and the
+# captures before the star):  ('parts', names) = tuple split_path_info('/' + '/'.join(c[n] for n in names)) -- the
+# traverse= option;  ('rem', prefix pieces) = tuple split_path_info(remainder) -- a *stararg;  ('seg', k) = the k-th
+# '/'-separated piece of the decoded path as a str -- a {traverse} / {subpath} placeholder (never normalised, and a
+# captured {traverse} wins over the traverse= option)
+RECIPES = {
+    'r_star': {'traverse': ('rem', ['/r/'])},
+    'r_sub': {'traverse': ('seg', 2), 'subpath': ('rem', ['/s/', 'traverse', '/'])},
+    'r_pred': {'traverse': ('parts', ['a', 'b'])},
+    'r_pred_sub': {'traverse': ('parts', ['a']), 'subpath': ('rem', ['/u/', 'a', '/'])},
+    'r_plain': {},
+    'r_strsub': {'subpath': ('seg', 2)},
+    'r_both': {'subpath': ('seg', 2), 'traverse': ('rem', ['/x/', 'subpath', '/'])},
+    'r_cap': {'traverse': ('seg', 2)},
+    'r_pred3': {'traverse': ('parts', ['b', '=x', 'a']), 'subpath': ('rem', ['/z/', 'a', '/', 'b', '/'])},
+}
+
+
+def _rmd_info(o):
+    """(route name, match dictionary, decoded path) from the real mapper, or None"""
+    if not _impl:
+        setup('quick')
+    try:
+        info = _impl['mapper'](_impl['Request'](_env(o)))
+        if info.get('route') is None:
+            return None
+        decoded = o['path_info'].encode('latin-1').decode('utf-8')
+    except Exception:
+        return None
+    return info['route'].name, info['match'], decoded
+
+
+def _rmd_wire(o):
+    got = _rmd_info(o)
+    if got is None:
+        return [7, [], []]
+    name, match, decoded = got
+    out = []
+    for key in ('traverse', 'subpath'):
+        r = RECIPES.get(name, {}).get(key)
+        if r is None:
+            out.append([])
+        elif r[0] == 'parts':
+            out.append([[n[1:] if n.startswith('=') else match[n] for n in r[1]]])      # '=x' = the literal x
+        elif r[0] == 'seg':
+            out.append([decoded.split('/')[r[1]]])
+        else:
+            prefix = ''.join(match[x] if x in match else x for x in r[1])
+            out.append([[decoded[len(prefix):]]] if decoded.startswith(prefix) else [['\x00PREFIX-MISMATCH']])
+    return [7] + out
 
 
 def gen_route_op(rng, tree):
     segs = gen_segments(rng, tree)
-    prefix = rng.choice(['/r', '/r', '/s', '/t', '/u', '/v', '/w', '/x', '/r', '/nomatch'])
+    prefix = rng.choice(['/r', '/r', '/s', '/t', '/u', '/v', '/w', '/x', '/r', '/nomatch', '/y', '/z', '/t', '/u'])
     if prefix in ('/s', '/u', '/x') and rng.random() < 0.7:
+        segs = (segs[:1] or [rng.choice(NAMES)]) + gen_segments(rng, None)
+    elif prefix == '/z' and rng.random() < 0.8:
+        segs = (segs + [rng.choice(NAMES), rng.choice(NAMES)])[:2] + gen_segments(rng, None)
+    elif prefix == '/y' and rng.random() < 0.8:
+        segs = (segs + [rng.choice(NAMES), rng.choice(NAMES)])[:2]
+    elif False:
         segs = (segs[:1] or [rng.choice(NAMES)]) + gen_segments(rng, None)
     elif prefix == '/t' and rng.random() < 0.8:
         segs = (segs + [rng.choice(NAMES), rng.choice(NAMES)])[:2]
@@ -326,7 +404,7 @@ def gen_route_op(rng, tree):
         pi = wsgi(pi) + rng.choice(['\xff', '\xc3'])
     else:
         pi = wsgi(pi)
-    return {'k': 'route', 'path_info': pi, 'vroot': gen_vroot(rng, tree)}
+    return {'k': 'route' if rng.random() < 0.7 else 'rmd', 'path_info': pi, 'vroot': gen_vroot(rng, tree)}
 
 
 def gen_op(rng, tree):
@@ -371,7 +449,7 @@ def gen_case(rng):
             ops.append(rng.choice(ops))                       # repeated key
         elif ops and r < 0.25:
             o = dict(rng.choice(ops))                         # same path under another vroot / entry
-            if o['k'] in ('req', 'router', 'route'):
+            if o['k'] in ('req', 'router', 'route', 'rmd'):
                 o['vroot'] = gen_vroot(rng, tree)
             ops.append(o)
         else:
@@ -525,7 +603,7 @@ def valid(case):
                         return False
                     if not all(_valid_path(v) for v in o['md'].values()):
                         return False
-            elif k in ('router', 'route'):
+            elif k in ('router', 'route', 'rmd'):
                 if sorted(o) != ['k', 'path_info', 'vroot']:
                     return False
                 if not (o['path_info'] is None or isinstance(o['path_info'], str)):
@@ -611,7 +689,7 @@ def shrinks(case):
 def _wsgi_shaped(case):
     try:
         for o in case['ops']:
-            if o.get('k') in ('req', 'router', 'route'):
+            if o.get('k') in ('req', 'router', 'route', 'rmd'):
                 for key in ('path_info', 'vroot'):
                     v = o.get(key)
                     if isinstance(v, str) and v != '' and not v.startswith('/'):
@@ -654,6 +732,8 @@ def _op_wire(o):
             mdw = [_opt(_path_wire(md['traverse']) if 'traverse' in md else None),
                    _opt(_path_wire(md['subpath']) if 'subpath' in md else None)]
         return [6, _opt(o['path_info']), _opt(mdw), _opt(o['vroot'])]
+    if k == 'rmd':
+        return _rmd_wire(o)
     if k == 'api':
         return [1, list(o['start']), _path_wire(o['path'])]
     if k == 'tpi':
@@ -747,9 +827,17 @@ class Folder(Leaf):
 #   4 unhashable (__eq__ by identity, __hash__ None) -- a resource used as a dictionary / cache key
 #   5 equal to nothing, not even itself (__eq__ False, __ne__ True)
 #   6 a dict subclass that stores nothing (children through __missing__): falsy, iterable, len 0
+#   7 item lookup bound PER INSTANCE (self.__getitem__ = ...; the class defines none): `ob.__getitem__` works,
+#     the subscript operator `ob[k]` (type-level lookup) does not
+#   8 a proxy (security / lazy-loading wrapper) that forwards every unknown attribute, __getitem__ included, to the
+#     real container through __getattr__: again reachable as an attribute only
+#   9 RE-ENTRANT container (a link / catalogue-backed folder): before answering, its __getitem__ itself resolves an
+#     absolute path with find_resource() / traverse() and normalises a text with traversal_path_info() -- a traversal
+#     INSIDE a traversal (not nested further); the ContextFound subscriber of such a history calls back in as well
+#   (the documented algorithm obtains `__getitem__` as an attribute of the resource and calls it; for leaves 7/8 = 0)
 # (a root WITHOUT a __parent__ attribute is not location-aware -- the glossary demands `__parent__ = None` -- and
 # find_root raises AttributeError on it; that case is outside the property's quantifier and not generated)
-FLAVOURS = (0, 1, 2, 3, 4, 5, 6)
+FLAVOURS = (0, 1, 2, 3, 4, 5, 6, 7, 8, 9)
 
 
 def _flavour_ns(fl):
@@ -794,6 +882,64 @@ class _LazyFolder(dict, Folder):
         return self is not other
 
 
+class _InstFolder(Leaf):
+    """flavour 7: no __getitem__ on the class; each instance binds its own"""
+
+    def __init__(self, name, parent, pos):
+        Leaf.__init__(self, name, parent, pos)
+        self._items = []
+        self.__getitem__ = self._lookup
+
+    def _lookup(self, key):
+        for k, v in self._items:
+            if k == key:
+                return v
+        raise KeyError(key)
+
+
+_reenter = {'depth': 0}
+
+
+def _inner_traversals(node, key):
+    """what a link-resolving container does inside __getitem__: other traversals, answers discarded"""
+    if _reenter['depth'] or not _impl:
+        return
+    _reenter['depth'] += 1
+    try:
+        T = _impl['T']
+        root = node
+        while getattr(root, '__parent__', None) is not None:
+            root = root.__parent__
+        for f in (lambda: T.find_resource(node, ('', key, 'x')), lambda: T.traverse(node, '/a/../b/@@v/s'),
+                  lambda: T.traversal_path_info('/' + key.encode('utf-8', 'surrogatepass').decode('latin-1') + '/..'),
+                  lambda: T.ResourceTreeTraverser(root)(_impl['Request'](dict(_impl['base'], PATH_INFO='/x/y',
+                                                                              **{_impl['vh']: '/a'})))):
+            try:
+                f()
+            except Exception:
+                pass
+    finally:
+        _reenter['depth'] -= 1
+
+
+class _ReentrantFolder(Folder):
+    def __getitem__(self, key):
+        _inner_traversals(self, key)
+        return Folder.__getitem__(self, key)
+
+
+class _ProxyFolder(Leaf):
+    """flavour 8: a location-aware proxy around a real Folder; everything it does not have itself (_items,
+    __getitem__) is forwarded by __getattr__"""
+
+    def __init__(self, name, parent, pos):
+        Leaf.__init__(self, name, parent, pos)
+        self.__dict__['_real'] = Folder(name, parent, pos)
+
+    def __getattr__(self, attr):
+        return getattr(self.__dict__['_real'], attr)
+
+
 _CLS = {}
 
 
@@ -803,7 +949,13 @@ def _cls(fl, folder):
         base = Folder if folder else Leaf
         if fl == 6 and folder:
             _CLS[key] = _LazyFolder
-        elif fl in (0, 6):
+        elif fl == 7 and folder:
+            _CLS[key] = _InstFolder
+        elif fl == 8 and folder:
+            _CLS[key] = _ProxyFolder
+        elif fl == 9 and folder:
+            _CLS[key] = _ReentrantFolder
+        elif fl in (0, 6, 7, 8, 9):
             _CLS[key] = base
         else:
             _CLS[key] = type('%s_f%d' % (base.__name__, fl), (base,), _flavour_ns(fl))
@@ -845,6 +997,9 @@ def setup(tier):
 
     def on_context(event):
         r = event.request
+        if cur.get('reenter'):
+            # a subscriber that calls back into traversal while the router is between traversal and view lookup
+            _inner_traversals(r.context, 'a')
         cur['seen'] = {'context': r.context, 'view_name': r.view_name, 'subpath': r.subpath,
                        'traversed': r.traversed, 'virtual_root': r.virtual_root,
                        'virtual_root_path': r.virtual_root_path, 'root': r.root}
@@ -992,6 +1147,15 @@ def _run_op(root, o, trav=None):
         return _run_router(root, o, 'app')
     if k == 'route':
         return _run_router(root, o, 'app2')
+    if k == 'rmd':
+        got = _rmd_info(o)
+        if got is None:
+            return [9, [], []]
+        out = [9]
+        for key in ('traverse', 'subpath'):
+            v = got[1].get(key, None)
+            out.append([] if v is None else [v if isinstance(v, str) else list(v)])
+        return out
     if k in ('api', 'find'):
         res = res_at(root, o['start'])
         try:
@@ -1031,6 +1195,7 @@ def run_impl(case):
         T._segment_cache.update(_impl.get('seg0', {}))
     root = build_tree(case['tree'], flav=case.get('flav'))
     _mode['strsub'] = case.get('strsub') or 0
+    _impl['cur']['reenter'] = 9 in (case.get('flav') or [])
     trav = T.ResourceTreeTraverser(root)       # one long-lived traverser per history, next to a fresh one per call
     return [_run_op(root, o, trav) for o in case['ops']]
 
@@ -1125,6 +1290,9 @@ def kinds(case, obs):
         return ks + sorted(set('sweep-out:' + ('ok' if _ok(o) else 'other') for o in obs))
     for op, o in zip(case['ops'], obs):
         k = op['k']
+        if k == 'rmd':
+            got = _rmd_info(op)
+            ks.append('rmd:' + ('no-match' if got is None else got[0]))
         if k in ('router', 'route'):
             ks.append('entry:' + k)
             ks.append('vroot:' + ('absent' if op['vroot'] is None else 'present'))
@@ -1237,6 +1405,17 @@ def targeted(broken, disagreements, rng):
                                         {'k': 'route', 'path_info': '/t' + w + '/x', 'vroot': None},
                                         {'k': 'router', 'path_info': w, 'vroot': w},
                                         {'k': 'find', 'start': [], 'path': ['', nm, 'x']}]})
+    # near misses of '', '.', '..', '@@v' as names, view names and subpath elements, by every way into the traverser
+    for nm in NEARMISS:
+        tt = [[nm, [['x', None]]], ['a', [[nm, None], ['x', None]]]]
+        w = wsgi('/' + nm)
+        out.append({'tree': tt, 'ops': [req(w + '/x'), req('/a' + w + '/x'), req('/x', w), req('/a/q' + w + '/s'),
+                                        req('/', None, {'traverse': [nm, 'x'], 'subpath': 'p/' + nm + '/q'}),
+                                        req('/', None, {'traverse': 'a/' + nm, 'subpath': ['p', nm]}),
+                                        {'k': 'tpi', 'path': w + '/x'}, {'k': 'tp', 'path': '/a/' + quote_seg(rng, nm)},
+                                        {'k': 'api', 'start': [1], 'path': ['', nm, 'x']},
+                                        {'k': 'find', 'start': [], 'path': 'a/' + quote_seg(rng, nm)},
+                                        {'k': 'route', 'path_info': '/r' + w + '/x', 'vroot': None}]})
     # odd-but-legitimate resource objects (falsy, empty, equal-to-everything, unhashable, no __parent__ on the root):
     # absolute and relative paths from a deep start, PATH_INFO under a virtual root, the Router
     for f in FLAVOURS[1:]:
